@@ -122,7 +122,9 @@ func CheckAdapter(sh Shape, ms schema.ModelSet, v AVec, max int) (out []AMism, n
 		}
 		nodes++
 		at := strings.Join(w.Xp, " ") + " = " + w.V
-		mis := func(what string, want, got interface{}) { out = append(out, AMism{At: at, What: what, Want: want, Got: got}) }
+		mis := func(what string, want, got interface{}) {
+			out = append(out, AMism{At: at, What: what, Want: want, Got: got})
+		}
 		if !isRoot && x.XName() != w.N { // the name of the root (a Tree) is not prescribed
 			mis("name", w.N, x.XName())
 		}
